@@ -227,6 +227,7 @@ type GenOpts struct {
 	InitChoices      []uint64 // candidate initial blocks
 	WantStores       int      // minimum number of stores (0 = any)
 	WantIndex        bool
+	MaxIndex         int // index modules per package (default 1)
 	NoIndex          bool
 	NoDelete         bool
 	Policies         []string // restrict policies
@@ -260,6 +261,7 @@ func GenPackage(r *Rng, o GenOpts) *PkgDef {
 	for i := 0; i < n; i++ {
 		m := &ModDef{}
 		m.Spec.Salt = r.U64()
+		m.Spec.V = 1
 		m.Spec.FailAt = -1
 		last := i == n-1
 		kind := "map"
@@ -271,9 +273,11 @@ func GenPackage(r *Rng, o GenOpts) *PkgDef {
 			kind = "store"
 		case o.WantIndex && len(idxs) == 0 && i == 0:
 			kind = "index"
+		case o.WantIndex && o.MaxIndex >= 2 && len(idxs) == 1 && i == 1:
+			kind = "index" // two index modules with the same key strings on different blocks
 		case x < 42:
 			kind = "store"
-		case x < 52 && !o.NoIndex && len(idxs) < 1:
+		case x < 52 && !o.NoIndex && len(idxs) < max(1, o.MaxIndex):
 			kind = "index"
 		}
 		m.Spec.Kind = kind
